@@ -149,3 +149,50 @@ def h_nikuradse_gas_constant(inp, body):
     return {"reproduced": bool(rel > 1e-9),
             "observed": {"lambda_turbulent_code": float(lam_t[0]), "documented": doc, "relative_deviation": rel,
                          "input": {"d": 0.1, "k": 1e-4}}}
+
+
+def _unjson(v):
+    if isinstance(v, dict) and "__tuple__" in v:
+        return tuple(v["__tuple__"])
+    return v
+
+
+def h_init_options(inp, body):
+    """three concrete option layers -> real init_options on a minimal net; compares the value in
+    force for one key with the value the documented precedence yields"""
+    import pandapipes
+    from pandapipes.pf.pipeflow_setup import init_options
+    import copy
+    net = pandapipes.create_empty_network(fluid="water")
+    user = inp.get("user")
+    if user is not None:
+        net["user_pf_options"] = {k: _unjson(v) for k, v in user.items()}
+    kwargs = {k: _unjson(v) for k, v in inp["kwargs"].items()}
+    user_before = copy.deepcopy(net.get("user_pf_options"))
+    init_options(net, **kwargs)
+    key = inp["key"]
+    opts = net["_options"]
+    exp_p, exp_v = inp["expected_present"], _unjson(inp.get("expected_value"))
+    got_p = key in opts
+    got_v = opts.get(key)
+    bad = (got_p != exp_p) or (exp_p and got_v != exp_v)
+    mutated = user_before != net.get("user_pf_options")
+    return {"reproduced": bool(bad or (inp.get("check_frame") and mutated)),
+            "observed": {"key": key, "present": got_p, "value": repr(got_v), "expected_present": exp_p,
+                         "expected_value": repr(exp_v), "user_options_mutated": mutated,
+                         "user": user, "kwargs": inp["kwargs"]}}
+
+
+def h_doc_default(inp, body):
+    import re
+    from pandapipes.pf import pipeflow_setup as ps
+    doc = ps.init_options.__doc__
+    m = re.search(r"\*\*%s\*\*\s+\((\w+)\):\s+([^\s]+)\s+-" % re.escape(inp["option"]), doc)
+    actual = ps.default_options.get(inp["option"])
+    documented = m.group(2).strip('"') if m else None
+    try:
+        same = float(documented) == float(actual)
+    except (TypeError, ValueError):
+        same = str(documented) == str(actual)
+    return {"reproduced": not same, "observed": {"option": inp["option"], "documented": documented,
+                                                 "default_options": repr(actual)}}
